@@ -268,7 +268,23 @@ def r4(ctx, retsets):
     ctx.check(good, "C06.R4", "pfx_table_copy_except_socket:walks", "%s:%d" % (fn.relfile, fn.line),
               "both families of the source are walked with pfx_table_copy_cb, destination = arg1, socket = arg2",
               key="C06.R4:pfx_copy:walks")
-    # error propagation: a failed add makes the copy fail
+    # error propagation: an error raised by the callback during either walk makes the copy fail
+    if walks:
+        ar = vf.expr(fn, walks[0].args[2])
+        ERR = ("fld", ar, "copy_cb_args.error")
+        for wi, w in enumerate(sorted(walks, key=lambda x: x.line)):
+            def classify3(inst, E, st, w=w):
+                if inst.op == "call" and inst is w:
+                    return [(["=err:1"], {("M", ERR): flow.av_in(1)}), ([], {("M", ERR): flow.av_in(0)})]
+                if inst.op == "call" and inst.callee in ("pfx_table_for_each_ipv4_record", "pfx_table_for_each_ipv6_record"):
+                    return [([], {("M", ERR): flow.av_in(0)})] if st.get("err") != "1" else None
+                return None
+            outs3, fl3 = es.count_effects(fn, pdb, classify3, retsets)
+            sel = [o for o in outs3 if o["counts"].get("err") == "1"]
+            good3 = bool(sel) and all(flow.av_single(o["ret"]) == pdb.enum_value("PFX_ERROR") for o in sel)
+            ctx.check(good3, "C06.R4", "pfx_table_copy_except_socket:error-after-walk%d" % (wi + 1), w.loc(),
+                      "a record that could not be copied during this walk makes the copy return PFX_ERROR (returns: %s)" % sorted({str(flow.av_single(o["ret"])) for o in sel}),
+                      key="C06.R4:pfx_copy:error-walk%d" % (wi + 1))
     errs = [i for i in cb.all_insts() if i.op == "store" and vf.store_field(i) == "copy_cb_args.error"]
     rs = retsets.get((fn.unit, fn.name))
     ctx.check(bool(errs) and rs != "TOP" and pdb.enum_value("PFX_ERROR") in (rs or ()), "C06.R4", "pfx_table_copy_except_socket:error",
@@ -369,6 +385,10 @@ def check(ctx):
     r4(ctx, retsets)
     r5(ctx, retsets)
     r6(ctx, retsets)
+    from specs import C03
+    with ctx.shared({"C03.R4": ("C06.R7", "on every path that completes a reload both tables are swapped (prefix and router-key table together, "
+                                "exactly once), never on a failing path; shadow tables are always released silently")}):
+        C03.r2_r3_r4(ctx, retsets)
     ctx.not_decided("reader-visible states inside user callbacks; equality of the new data set with the cache's set")
 
 
